@@ -1,7 +1,7 @@
 (* Property C14 - only statements, each closed by [exact]. *)
 From Coq Require Import NArith ZArith List Bool.
 Import ListNotations.
-Require Import UV.C14.Model UV.C14.Proofs UV.C14.Patch UV.C14.Pages UV.C14.Layout UV.C14.SizeOpt.
+Require Import UV.C14.Model UV.C14.Proofs UV.C14.Patch UV.C14.Pages UV.C14.Layout UV.C14.SizeOpt UV.C14.Detect.
 Local Open Scope N_scope.
 
 (* ---- which functions are selected ---- *)
@@ -202,6 +202,36 @@ Theorem C14_cli_size_filter_refuted :
   /\ cli_min_size false (-4294967295) = 1.
 Proof. exact cli_size_filter_refuted. Qed.
 Print Assumptions C14_cli_size_filter_refuted.
+
+(* ---- which patch method a module gets (mcount_arch_find_module) ---- *)
+(* repaired probe (/repo "fix: dynamic: skip endbr64 when probing ..."): a module in which any ordinary
+   function has a NOP form at its post-endbr64 entry gets a type that patches, so such a function is
+   patchable exactly when it passes the size gate, whatever else the module contains *)
+Theorem C14_detected_module_patches : forall sect chk m syms s pats lib so tramp mn,
+  sect <> SectXray -> In s syms -> ordinary s = true ->
+  is_nop_sig (rd m (entry_of m (s_addr s)) 5) = true ->
+  patchable {| c_pats := pats; c_lib := lib; c_so := so; c_ty := find_module_type true sect chk m syms;
+               c_tramp := tramp; c_min := mn |} m s
+  = negb (s_size s <? eff_min_size mn).
+Proof. exact detected_module_patches. Qed.
+Print Assumptions C14_detected_module_patches.
+
+Theorem C14_detect_falls_back : forall fixed chk m syms,
+  (forall s, In s syms -> probe_sym fixed m s = false) -> find_module_type fixed SectNone chk m syms = chk.
+Proof. exact detect_falls_back. Qed.
+Print Assumptions C14_detect_falls_back.
+
+(* the code as found: a -mfentry -mnop-mcount module built with -fcf-protection was classified "none":
+   patch_fentry_code could patch the function, mcount_patch_func (type none) fails, nothing is traced *)
+Theorem C14_detect_endbr_refuted :
+  ordinary cet_sym = true
+  /\ snd (patch_fentry_code 4080 cet_mem (s_addr cet_sym)) = Success
+  /\ find_module_type false SectNone DNone cet_mem [cet_sym] = DNone
+  /\ mcount_patch_func (find_module_type false SectNone DNone cet_mem [cet_sym]) 4080 0 cet_mem cet_sym = (cet_mem, Failed)
+  /\ find_module_type true SectNone DNone cet_mem [cet_sym] = DFentryNop
+  /\ snd (mcount_patch_func (find_module_type true SectNone DNone cet_mem [cet_sym]) 4080 0 cet_mem cet_sym) = Success.
+Proof. exact detect_endbr_refuted. Qed.
+Print Assumptions C14_detect_endbr_refuted.
 
 (* the size gate is 6 bytes but a function with endbr64 needs 9: the patch of a 6-byte symbol can
    land in the next symbol, which is itself below the gate (needs NOPs spanning two symbols) *)
